@@ -74,6 +74,22 @@ K_PI_GT = re.compile(rb'<\?(?:(?!\?>)[^>])*(?<!\?)>', re.S)
 K_SCRIPT_TYPE_CASE = re.compile(rb'(?i:<script\b[^>]*\btype\s*=\s*["\']?)[^"\'>]*[A-Z]')
 
 
+# K12: with KeepVarNames hoistVars moves "var y" into a var statement that sits inside the scope of a "let y" (for(let y...){var x} ... var y)
+_VARS = re.compile(rb'\bvar\s+([^;{}()]*)')
+_LETS = re.compile(rb'\b(?:let|const)\s+([A-Za-z_$][\w$]*)')
+_NAME = re.compile(rb'(?:^|,)\s*([A-Za-z_$][\w$]*)')
+
+
+def same_name_var_and_let(b):
+    lets = set(_LETS.findall(b))
+    if not lets:
+        return False
+    for m in _VARS.finditer(b):
+        if lets & set(_NAME.findall(m.group(1))):
+            return True
+    return False
+
+
 # constructs whose defect is fixed in /repo are no longer excluded: FIXED lists them permanently; VERIF_C09_LIFT=K5,K8 lifts more for a
 # trial run against a patched tree (maintenance)
 FIXED = set()
@@ -109,6 +125,8 @@ def excluded(lang, opts, b):
         tags.append('K10')
     if lang == 'html' and K_SCRIPT_TYPE_CASE.search(b):
         tags.append('K11')
+    if lang in ('js', 'html') and ('names' in opts or 'keep' in opts) and same_name_var_and_let(b):
+        tags.append('K12')
     return [t for t in tags if t not in LIFTED]
 
 
@@ -304,6 +322,35 @@ def adj_classes():
     return cls
 
 
+def parse_ctx_dump(path):
+    """states of a JsPrintCtx dump -> list of (context, [disturbers], payload)"""
+    out, cur = [], {}
+    for line in open(path):
+        line = line.rstrip('\n')
+        if line.startswith('/\\ '):
+            k, _, v = line[3:].partition(' = ')
+            cur[k] = v
+            if len(cur) == 3:
+                out.append((cur['ctx'][1:-1], re.findall(r'"([^"]*)"', cur['ds']), cur['p'][1:-1]))
+                cur = {}
+    return out
+
+
+def ctx_sets():
+    """Contexts, Disturbers, Payloads of spec/JsPrintCtx.tla (single source of truth; used to sample two-disturber programs)"""
+    txt = open(os.path.join(vlib.SPEC, 'JsPrintCtx.tla')).read()
+    res = []
+    for name in ('Contexts', 'Disturbers', 'Payloads'):
+        body = txt[txt.index(name + ' == {'):]
+        body = body[:body.index('\n}')]
+        res.append(re.findall(r'^\s*"([^"]*)"', body, re.M))
+    return res
+
+
+def render_ctx(ctx, ds, pay):
+    return ctx.replace('@D', '+'.join(ds)).replace('@P', pay).encode()
+
+
 def fusion_critical(cls):
     """predicate on class sequences: some neighbours may not be printed back to back.  Mirrors FusesPair / FusesTriple of
     spec/JsLexAdj.tla (pair and triple tables are read from the module text); used only to PRIORITISE programs in the quick tier."""
@@ -455,6 +502,7 @@ def tlc_jobs(ctx):
     """design-level model checking (run in threads next to the driver)"""
     q = ctx.quick()
     jobs = [('Closure', 'Closure_mc.cfg' if q else 'Closure_mc4.cfg', None),
+            ('JsPrintCtx', 'JsPrintCtx_1.cfg', 'printctx')] + ([] if q else [('JsPrintCtx', 'JsPrintCtx_2.cfg', None)]) + [
             ('JsLexAdj', 'JsLexAdj_full3.cfg' if q else 'JsLexAdj_full4.cfg', 'adj-full'),
             ('JsLexAdj', 'JsLexAdj_core4.cfg' if q else 'JsLexAdj_core6.cfg', 'adj-core')]
     res = {}
@@ -564,7 +612,7 @@ def run(ctx):
     cls = adj_classes()
     progs = []
     for cfg, (r, dp) in sorted(mc_result.items()):
-        if dp:
+        if dp and cfg.startswith('JsLexAdj'):
             seqs = parse_adj_dump(dp + '.dump')
             ctx.coverage['adjacency_' + cfg.replace('.cfg', '')] = len(seqs)
             progs += seqs
@@ -592,6 +640,27 @@ def run(ctx):
         if len(p) <= 5 and (b'/script' in src or len(p) <= 4 and (not quick or rnd.random() < 0.25)):
             cs.add('html', 'default', data=b'<script>x=' + src + b';</script>', origin='adj-host:' + '.'.join(cls[c - 1][0] for c in p))
     ctx.coverage['adjacency_programs'] = nadj
+    # printing-state programs of JsPrintCtx: context[ disturber(s), payload ]
+    ctxprogs = []
+    for cfg, (r, dp) in sorted(mc_result.items()):
+        if dp and cfg.startswith('JsPrintCtx'):
+            ctxprogs = parse_ctx_dump(dp + '.dump')
+    ctx.coverage['printctx_states'] = len(ctxprogs)
+    hot = [t for t in ctxprogs if 'for(' in t[0] and ' in' in t[2].replace("'in", ' in')]
+    hotset = set(map(lambda t: (t[0], tuple(t[1]), t[2]), hot))
+    cold = [t for t in ctxprogs if (t[0], tuple(t[1]), t[2]) not in hotset]
+    if quick:
+        chosen_ctx = vlib.sample(hot, 1000, rnd) + vlib.sample(cold, 1000, rnd)
+    else:
+        cset, dset, pset = ctx_sets()
+        two = [(rnd.choice(cset), [rnd.choice(dset), rnd.choice(dset)], rnd.choice(pset)) for _ in range(30000)]
+        chosen_ctx = ctxprogs + two
+    nctx = 0
+    for c, ds, pay in (chosen_ctx if not only_pinned else []):
+        if cs.add('js', 'default' if rnd.random() < 0.8 else rnd.choice(OPTSETS['js'][1:]), data=render_ctx(c, ds, pay),
+                  origin='ctx:%s|%s|%s' % (c, '+'.join(ds), pay)) is not None:
+            nctx += 1
+    ctx.coverage['printctx_programs'] = nctx
     # embedding probes: JavaScript whose printed form must not contain "</script" or "<!--" when it sits in an HTML script element
     for k, js in enumerate(EMBED_PROBES if not only_pinned else []):
         for o in OPTSETS['html'] if not quick else ['default', rnd.choice(OPTSETS['html'][1:])]:
